@@ -29,6 +29,7 @@ TOPOS = {
     "delta": {"n": 3, "pipes": [(0, 1), (0, 2), (1, 2)], "feed": {0: 355.0}, "sinks": {1: 0.1, 2: 0.4}},
     "three_in": {"n": 5, "pipes": [(0, 3), (1, 3), (2, 3), (3, 4)], "feed": {0: 370.0, 1: 340.0, 2: 310.0}, "sinks": {4: 0.6}},
     "deadend": {"n": 4, "pipes": [(0, 1), (1, 2), (1, 3)], "feed": {0: 350.0}, "sinks": {2: 0.3}},
+    "parallel": {"n": 4, "pipes": [(0, 1), (1, 2), (1, 2), (2, 3)], "feed": {0: 358.0}, "sinks": {3: 0.4}},
 }
 
 
